@@ -23,6 +23,11 @@
 #include <glm/ext/scalar_ulp.hpp>
 #include <glm/gtx/integer.hpp>
 #include <glm/gtx/bit.hpp>
+#include <glm/ext/matrix_relational.hpp>
+#include <glm/ext/vector_relational.hpp>
+#include <glm/ext/quaternion_relational.hpp>
+#include <glm/gtc/quaternion.hpp>
+#include <glm/gtc/matrix_access.hpp>
 #include <cstdio>
 #include <cstring>
 #include <cstdint>
@@ -293,6 +298,41 @@ static void g_gtx(Rng& r, long n) {
 	}
 }
 
+// relational functions and element access of every vector length / matrix shape / quaternion: any finite values,
+// epsilon >= 0, ULPs >= 0 (every index the functions compute themselves must be inside the object)
+template<int C, int R, class T> static void rel_mat(Rng& r, char const* ty) {
+	glm::mat<C, R, T> a, b;
+	for (int c = 0; c < C; ++c) for (int q = 0; q < R; ++q) { a[c][q] = (T)f_finite(r); b[c][q] = (r.next() & 3) ? a[c][q] : (T)f_finite(r); }
+	CALL("equal/notEqual(mat%dx%d<%s>) all overloads; row/column access", C, R, ty);
+	use(glm::equal(a, b)); use(glm::notEqual(a, b)); use(glm::equal(a, b, (T)1e-6)); use(glm::notEqual(a, b, (T)1e-6));
+	use(glm::equal(a, b, glm::vec<C, T>((T)1e-6))); use(glm::notEqual(a, b, glm::vec<C, T>((T)1e-6)));
+	use(glm::equal(a, b, 2)); use(glm::notEqual(a, b, 2)); use(glm::equal(a, b, glm::vec<C, int>(3))); use(glm::notEqual(a, b, glm::vec<C, int>(3)));
+	use(a == b); use(a != b);
+	for (int c = 0; c < C; ++c) use(glm::column(a, c)); for (int q = 0; q < R; ++q) use(glm::row(a, q));
+	use(glm::transpose(a)); use(glm::matrixCompMult(a, b)); use(glm::outerProduct(glm::column(a, 0), glm::row(b, 0)));
+}
+template<int L, class T> static void rel_vec(Rng& r, char const* ty) {
+	glm::vec<L, T> a, b; for (int i = 0; i < L; ++i) { a[i] = (T)f_finite(r); b[i] = (r.next() & 1) ? a[i] : (T)f_finite(r); }
+	CALL("relational functions vec%d<%s>", L, ty);
+	use(glm::equal(a, b)); use(glm::notEqual(a, b)); use(glm::equal(a, b, (T)1e-6)); use(glm::notEqual(a, b, (T)1e-6));
+	use(glm::equal(a, b, glm::vec<L, T>((T)1e-6))); use(glm::notEqual(a, b, glm::vec<L, T>((T)1e-6)));
+	use(glm::equal(a, b, 2)); use(glm::notEqual(a, b, 2)); use(glm::equal(a, b, glm::vec<L, int>(3))); use(glm::notEqual(a, b, glm::vec<L, int>(3)));
+	use(glm::lessThan(a, b)); use(glm::lessThanEqual(a, b)); use(glm::greaterThan(a, b)); use(glm::greaterThanEqual(a, b));
+	use(glm::any(glm::lessThan(a, b))); use(glm::all(glm::lessThan(a, b))); use(glm::not_(glm::lessThan(a, b))); use(a == b);
+}
+static void g_relational(Rng& r, long n) {
+	for (long i = 0; i < n; i += 8) {
+		rel_mat<2, 2, float>(r, "float"); rel_mat<2, 3, float>(r, "float"); rel_mat<2, 4, float>(r, "float"); rel_mat<3, 2, float>(r, "float"); rel_mat<3, 3, float>(r, "float");
+		rel_mat<3, 4, float>(r, "float"); rel_mat<4, 2, float>(r, "float"); rel_mat<4, 3, float>(r, "float"); rel_mat<4, 4, float>(r, "float");
+		rel_mat<2, 3, double>(r, "double"); rel_mat<3, 4, double>(r, "double"); rel_mat<4, 2, double>(r, "double"); rel_mat<3, 3, double>(r, "double");
+		rel_vec<1, float>(r, "float"); rel_vec<2, float>(r, "float"); rel_vec<3, float>(r, "float"); rel_vec<4, float>(r, "float"); rel_vec<3, double>(r, "double");
+		glm::quat q(f_in(r, -1, 1), f_in(r, -1, 1), f_in(r, -1, 1), f_in(r, -1, 1)), p = (r.next() & 1) ? q : glm::quat(1, 0, 0, 0);
+		CALL("relational functions quat %a %a %a %a", (double)q.w, (double)q.x, (double)q.y, (double)q.z);
+		use(glm::equal(q, p)); use(glm::notEqual(q, p)); use(glm::equal(q, p, 1e-6f)); use(glm::notEqual(q, p, 1e-6f)); use(q == p);
+		use(glm::lessThan(q, p)); use(glm::greaterThanEqual(q, p));
+	}
+}
+
 struct Group { char const* name; void (*fn)(Rng&, long); char const* domain; };
 static Group GROUPS[] = {
 	{ "pack_norm", g_pack_norm, "packUnorm*/packSnorm*: every finite float (the documented formula clamps); <uint32>/<int32>: v < 1 (v >= 1 is the recorded finding)" },
@@ -302,6 +342,7 @@ static Group GROUPS[] = {
 	{ "integer", g_integer, "value arguments: any; 0 <= offset, 0 <= bits, offset + bits <= width" },
 	{ "bitfield", g_bitfield, "mask: 0..width; rotate: value any, 0 <= shift < width; fill: first + count <= width" },
 	{ "round", g_round, "0 < v <= 2^(w-3); |source| <= 2^(w-3), 0 < multiple <= 2^(w-3); findNSB: any value, 0 <= n <= width" },
+	{ "relational", g_relational, "equal/notEqual (plain, epsilon, ULP; scalar and per-column/per-component tolerances), ordering relations, row/column access, transpose: every vector length, all nine matrix shapes, quaternions; any finite values" },
 	{ "gtx", g_gtx, "log2: x > 0; sqrt: x >= 0; pow: |b| <= 6, e <= 10; factorial: 0..12; powerOfTwo*: 0 < x <= 2^(w-3)" },
 };
 static const int NG = sizeof(GROUPS) / sizeof(Group);
